@@ -88,6 +88,11 @@ class Recorder:
             raise AnalysisError(f"rule {rule}: embedded positive example did not fire (checker broken)")
         self.selfcheck.append(rule)
 
+    def undecided(self, rule: str, msg: str) -> None:
+        """the rule met a shape it cannot interpret: neither a pass nor a violation (exit 2 unless
+        something else is a violation); never used when there is positive evidence of a violation"""
+        self.errors.append(f"{rule}: cannot decide: {msg}")
+
     def note(self, s: str) -> None:
         self.notes.append(s)
 
